@@ -912,6 +912,15 @@ theorem T_C11_joint_choppable_upto12_partial :
     ∀ n ∈ [2, 3, 4, 5, 6, 7, 8, 9, 10, 11, 12], writeOk (jointBlocks n halfQuads) (jointChopNodes n) = true := by
   decide +kernel
 
+/- The clause "every family chopped exactly once" is FALSE for joints; the true clause is: a joint with `n` branches
+   has `2 n + 3` wire families (n axial, n − 1 + 3 tangential, 1 radial, …), every one is chopped at least once
+   (`T_C11_joint_choppable_upto12_partial`), all of them exactly once except the radial family, which is chopped twice:
+   `chop_radial` chops `shell[0]` of both halves of branch 0 and their radial wires are joined through the common
+   diameter.  Full statement `∀ n ≥ 2` not proved (same missing induction); proved for 2..8 by evaluation. -/
+theorem T_C11_joint_families_upto8_partial : ∀ n ∈ [2, 3, 4, 5, 6, 7, 8],
+    (jointFamilyCounts n).length = 2 * n + 3 ∧ (jointFamilyCounts n).filter (· != 1) = [2] := by
+  decide +kernel
+
 /-- the model has 12 blocks per branch and 23 n + 5 vertices (17 bottom points per branch, 6 per mitre face, 5 on the
     common axis), for the same branch counts -/
 theorem T_C11_joint_counts_partial : ∀ n ∈ [2, 3, 4, 5, 6, 7, 8, 9, 10, 11, 12],
